@@ -118,3 +118,129 @@ package compile
 //@ contract compileConstantList
 //@   props C09
 //@   modifies nothing
+
+// ---------------------------------------------------------------------------
+// Reference resolution (C07) and definition cycles (C08, C09).
+
+//@ contract splitInclude
+//@   props C07
+//@   nopanic
+//@   pure
+//@   let i = strIndexRune(s, 46)
+//@   ensures(first) i > 0 ==> result0 == substr(s, 0, i) && result1 == substr(s, i + 1, len(s))
+//@   ensures(none) i <= 0 ==> result0 == "" && result1 == s
+
+//@ contract getIncludedScope
+//@   inline
+
+//@ contract (typeSpecReference).Link
+//@   props C07
+//@   let i = strIndexRune(r.Name, 46)
+//@   ensures(localfirst) scopeHasType(scope, r.Name) ==> lastLinkedType(nil) == scopeType(scope, r.Name)
+//@   ensures(needsprefix) !scopeHasType(scope, r.Name) && err == nil ==> i > 0 && scopeHasInclude(scope, substr(r.Name, 0, i))
+//@   ensures(included) !scopeHasType(scope, r.Name) && err == nil && scopeHasType(scopeInclude(scope, substr(r.Name, 0, i)), substr(r.Name, i + 1, len(r.Name))) ==> lastLinkedType(nil) == scopeType(scopeInclude(scope, substr(r.Name, 0, i)), substr(r.Name, i + 1, len(r.Name)))
+
+//@ contract (*Module).LookupType
+//@   props C07
+//@   pure
+//@   requires m != nil
+//@   ensures(exact) (err == nil) <==> has(m.Types, name)
+//@   ensures(value) err == nil ==> result == m.Types[name]
+//@ contract (*Module).LookupConstant
+//@   props C07
+//@   pure
+//@   requires m != nil
+//@   ensures(exact) (err == nil) <==> has(m.Constants, name)
+//@   ensures(value) err == nil ==> result == m.Constants[name]
+//@ contract (*Module).LookupService
+//@   props C07
+//@   pure
+//@   requires m != nil
+//@   ensures(exact) (err == nil) <==> has(m.Services, name)
+//@   ensures(value) err == nil ==> result == m.Services[name]
+//@ contract (*Module).LookupInclude
+//@   props C07
+//@   pure
+//@   requires m != nil
+//@   ensures(exact) (err == nil) <==> has(m.Includes, name)
+
+//@ contract (*linkOnce).linked
+//@   props C07 C08
+//@   inline
+//@   requires c != nil
+//@   modifies *c
+//@   ensures(testandset) result == old(*c) && *c
+
+//@ contract (*FunctionSpec).Link
+//@   trusted
+//@   modifies all
+//@   ensures unchanged(*ServiceSpec, Parent) && unchanged(*ServiceSpec, parentSrc)
+
+//@ contract (*ServiceSpec).Link
+//@   props C08 C09
+//@   requires s != nil
+//@   modifies all
+//@   loop 1: invariant (p == parent || parent != s) && parent != nil && s != nil
+//@   loop 2: invariant s != nil && (old(s.parentSrc) != nil ==> s.Parent != s && s.Parent != nil)
+//@   loop 2: invariant old(s.parentSrc) == nil ==> s.Parent == old(s.Parent)
+//@   ensures(noselfparent) err == nil && !old(s.linkOnce) && old(s.parentSrc) != nil ==> s.Parent != s && s.Parent != nil
+//@   ensures(noparent) err == nil && !old(s.linkOnce) && old(s.parentSrc) == nil ==> s.Parent == old(s.Parent)
+
+//@ contract resolveService
+//@   props C07
+//@   let i = strIndexRune(src.Name, 46)
+//@   modifies all
+//@   ensures(nonnil) err == nil ==> result != nil
+//@   ensures(localfirst) scopeHasService(scope, src.Name) ==> result == scopeService(scope, src.Name)
+//@   ensures(needsprefix) !scopeHasService(scope, src.Name) && err == nil ==> i > 0 && scopeHasInclude(scope, substr(src.Name, 0, i))
+//@   ensures(included) !scopeHasService(scope, src.Name) && err == nil && scopeHasService(scopeInclude(scope, substr(src.Name, 0, i)), substr(src.Name, i + 1, len(src.Name))) ==> result == scopeService(scopeInclude(scope, substr(src.Name, 0, i)), substr(src.Name, i + 1, len(src.Name)))
+
+//@ contract (*Constant).Link
+//@   props C08 C09
+//@   requires c != nil
+//@   modifies all
+//@   ensures(restored) !old(c.linkOnce) ==> !c.linking
+
+//@ contract (*Constant).link
+//@   trusted
+//@   modifies all
+//@   ensures unchanged(*Constant, linking)
+
+//@ contract (constantReference).Link
+//@   props C07 C08 C09
+//@   modifies all
+//@   ensures(nocycle) err == nil && scopeHasConst(scope, r.Name) ==> !old((*Constant)(scopeConst(scope, r.Name)).linking)
+
+// Walk hands every module path to the callback at most once (C07: a file reached
+// through several include paths is compiled/visited once, keyed by its path).
+//@ paramcontract (*Module).Walk.f
+//@   requires arg0 != nil && !walkSeen(nil)[arg0.ThriftPath]
+//@   modifies all, walkSeen(nil)
+//@   ensures walkSeen(nil) == setadd(old(walkSeen(nil)), old(arg0.ThriftPath))
+
+//@ contract (*Module).Walk
+//@   props C07
+//@   requires m != nil && forall(k, Str, !walkSeen(nil)[k])
+//@   modifies all, walkSeen(nil)
+//@   loop 1: invariant visited != nil && forall(k, Str, walkSeen(nil)[k] ==> has(visited, k))
+
+//@ contract (typeCycleFinder).visited
+//@   props C08
+//@   nopanic
+//@   pure
+//@   loop 1: invariant -1 <= ridx && ridx < len(f) && forall(k, 0, ridx + 1, f[k] != s)
+//@   loop 1: decreases len(f) - ridx
+//@   ensures(found) result ==> exists(k, 0, len(f), f[k] == s)
+//@   ensures(absent) !result ==> forall(k, 0, len(f), f[k] != s)
+
+// include cycles are cut because a module is registered before its includes are gathered
+//@ contract (compiler).gather
+//@   trusted
+//@   requires m != nil && has(c.Modules, m.ThriftPath) && c.Modules[m.ThriftPath] == m
+//@   modifies all
+
+//@ contract (compiler).load
+//@   props C07 C08
+//@   requires c.Modules != nil
+//@   modifies all
+//@   ensures(cached) old(has(c.Modules, fsAbs(c.fs, p))) && err == nil ==> result == old(c.Modules[fsAbs(c.fs, p)])
